@@ -20,9 +20,12 @@ package http_api
 //@ ghost r5HDecorated string
 //@ ghost r5HDecoratedEntry httprouter.Handle
 //@ ghost r5HDecoratedBy int
-//@ ghostgroup r5HDecorations, r5HDecorated, r5HDecoratedEntry, r5HDecoratedBy
+// (round 6, area M) r6MDecoratedLast = fnname of the LAST decorator of the list - Decorate applies them in order, so the last one is the
+// outermost wrapper, the one that writes the response (V1 / PlainText); "" when there is none.
+//@ ghost r6MDecoratedLast string
+//@ ghostgroup r5HDecorations, r5HDecorated, r5HDecoratedEntry, r5HDecoratedBy, r6MDecoratedLast
 //@ func Decorate(f APIHandler, ds ...Decorator) httprouter.Handle
-//@   props C17 C18
+//@   props C17 C18 C10 C14 C15
 //@   nochan
 //@   ensures[an-entry] result != nil
 //@   modifies r5HDecorations
@@ -30,6 +33,7 @@ package http_api
 //@   onreturn r5HDecorated := fnname(f)
 //@   onreturn r5HDecoratedEntry := result
 //@   onreturn r5HDecoratedBy := len(ds)
+//@   onreturn r6MDecoratedLast := len(ds) > 0 ? fnname(ds[len(ds) - 1]) : ""
 
 // (integration) Serve, GETV1, POSTV1 and httpsEndpoint: this author's contracts were duplicates of zz_contracts_r5main_verif.go (Serve) and of the
 // complete client contracts of zz_contracts_r5J_verif.go; those are kept (their clauses [no-deadlines] resp. the body/decoding clauses catch the same changes).
